@@ -4,6 +4,7 @@
 -/
 import ALV.Lemmas.C08
 import ALV.Lemmas.C08Hist
+import ALV.Lemmas.C08Call
 import ALV.Common.Audit
 
 namespace ALV.Props.C08
@@ -222,6 +223,430 @@ theorem zero_pad_trace (left right : Nat) (zero : α) (xs : List α) :
   · simp only [zeroPadTrace, List.map_append, hm, List.map_map]
     simp [Function.comp_def]
 
+
+/-! ## The call: shapes, defaults, spellings of the parameters -/
+
+/-- **C08.8a (default of `hop`)**: `hop` omitted / `None` is `hop = size`, for EVERY spelling of `size`
+(also the refused ones). -/
+theorem call_hop_default (dflt : α) (size : Num) (padval : Option α) (it : Bool) (xs : List α) (e : Ending) :
+    blocksCall dflt size .none padval it xs e = blocksCall dflt size size padval it xs e := by
+  cases size with
+  | int i =>
+    unfold blocksCall initSize
+    by_cases h1 : i < 0
+    · simp [h1]
+    · by_cases h2 : maxSsize < i
+      · simp [h1, h2]
+      · have : ((i.toNat : Nat) : Int) = i := by omega
+        simp [h1, h2, initHop, this]
+  | _ => simp [blocksCall, initSize]
+
+/-- **C08.8b (default of `padval`)**: `padval` omitted is `padval = 0.` given. -/
+theorem call_padval_default (dflt : α) (size hop : Num) (it : Bool) (xs : List α) (e : Ending) :
+    blocksCall dflt size hop none it xs e = blocksCall dflt size hop (some dflt) it xs e := rfl
+
+/-- **C08.8c (call shapes)**: all-positional, all-keyword (any order), and mixed calls bind the same
+parameters. -/
+theorem bind_forms {V : Type} (seq size hop padval : V) :
+    ALV.C08.bind blocksParams 1 [seq, size, hop, padval] [] = some [some seq, some size, some hop, some padval] ∧
+    ALV.C08.bind blocksParams 1 [seq] [("size", size), ("hop", hop), ("padval", padval)] =
+      some [some seq, some size, some hop, some padval] ∧
+    ALV.C08.bind blocksParams 1 [seq, size] [("padval", padval), ("hop", hop)] =
+      some [some seq, some size, some hop, some padval] ∧
+    ALV.C08.bind blocksParams 1 [] [("hop", hop), ("seq", seq), ("padval", padval), ("size", size)] =
+      some [some seq, some size, some hop, some padval] := ⟨rfl, rfl, rfl, rfl⟩
+
+/-- omitted parameters stay unbound (their defaults apply) -/
+theorem bind_omitted {V : Type} (seq size padval : V) :
+    ALV.C08.bind blocksParams 1 [seq] [] = some [some seq, none, none, none] ∧
+    ALV.C08.bind blocksParams 1 [seq, size] [] = some [some seq, some size, none, none] ∧
+    ALV.C08.bind blocksParams 1 [seq, size] [("padval", padval)] = some [some seq, some size, none, some padval] :=
+  ⟨rfl, rfl, rfl⟩
+
+/-- calls Python refuses (TypeError when the call is made): too many positional arguments, unknown
+keyword, a parameter given twice, no data argument -/
+theorem bind_refused {V : Type} (a b c d e : V) :
+    ALV.C08.bind blocksParams 1 [a, b, c, d, e] [] = none ∧
+    ALV.C08.bind blocksParams 1 [a, b] [("pad", c)] = none ∧
+    ALV.C08.bind blocksParams 1 [a, b] [("size", c)] = none ∧
+    ALV.C08.bind blocksParams 1 [] [("size", b)] = none := ⟨rfl, rfl, rfl, rfl⟩
+
+/-- the written call is the call of the body with the bound parameters: positional = keyword form,
+omitted `hop` / `padval` = their defaults -/
+theorem apply_forms (asNum : α → Num) (asIter : α → Bool) (dflt seq size hop padval : α) (xs : List α) (e : Ending) :
+    blocksApply asNum asIter dflt [seq, size, hop, padval] [] xs e =
+      some (blocksCall dflt (asNum size) (asNum hop) (some padval) (asIter seq) xs e) ∧
+    blocksApply asNum asIter dflt [seq] [("padval", padval), ("hop", hop), ("size", size)] xs e =
+      some (blocksCall dflt (asNum size) (asNum hop) (some padval) (asIter seq) xs e) ∧
+    blocksApply asNum asIter dflt [seq, size] [] xs e =
+      some (blocksCall dflt (asNum size) (asNum size) (some dflt) (asIter seq) xs e) := by
+  refine ⟨rfl, rfl, ?_⟩
+  show some (blocksCall dflt (asNum size) .none none (asIter seq) xs e) = _
+  rw [call_hop_default, call_padval_default]
+
+/-- **"same through Stream.blocks"** for every call shape: `s.blocks(*args, **kwargs)` is
+`blocks(iter(s), *args, **kwargs)`; giving `seq` again by keyword is refused. -/
+theorem stream_blocks_apply (asNum : α → Num) (asIter : α → Bool) (dflt self : α) (args : List α)
+    (kw : List (String × α)) (xs : List α) (e : Ending) :
+    streamBlocksApply asNum asIter dflt self args kw xs e = blocksApply asNum asIter dflt (self :: args) kw xs e ∧
+    streamBlocksApply asNum asIter dflt self [] [("seq", self)] xs e = none := ⟨rfl, rfl⟩
+
+/-- **C08.9a (refused spellings of `size`)**: `None` (also: omitted), a float, a Fraction, any other
+object: TypeError; negative: ValueError; above 2^63-1: OverflowError — raised when the first block is asked
+for, before the source is touched (nothing pulled, no block). -/
+theorem call_size_refused (dflt : α) (hop : Num) (padval : Option α) (it : Bool) (xs : List α) (e : Ending) :
+    blocksCall dflt .none hop padval it xs e = ⟨[], .err .typeError, 0⟩ ∧
+    (∀ q, blocksCall dflt (.flt q) hop padval it xs e = ⟨[], .err .typeError, 0⟩) ∧
+    (∀ q, blocksCall dflt (.frac q) hop padval it xs e = ⟨[], .err .typeError, 0⟩) ∧
+    blocksCall dflt .other hop padval it xs e = ⟨[], .err .typeError, 0⟩ ∧
+    (∀ i : Int, i < 0 → blocksCall dflt (.int i) hop padval it xs e = ⟨[], .err .valueError, 0⟩) ∧
+    (∀ i : Int, maxSsize < i → blocksCall dflt (.int i) hop padval it xs e = ⟨[], .err .overflowError, 0⟩) := by
+  refine ⟨rfl, fun _ => rfl, fun _ => rfl, rfl, fun i hi => ?_, fun i hi => ?_⟩
+  · simp [blocksCall, initSize, hi]
+  · have h0 : ¬ i < 0 := by unfold maxSsize at hi; omega
+    simp [blocksCall, initSize, hi, h0]
+
+/-- **C08.9b**: a `hop` without arithmetic, or a `seq` that is not iterable: TypeError, nothing pulled. -/
+theorem call_hop_seq_refused (dflt : α) (s : Nat) (hs : (s : Int) ≤ maxSsize) (hop : Num) (padval : Option α)
+    (it : Bool) (xs : List α) (e : Ending) :
+    blocksCall dflt (.int s) .other padval it xs e = ⟨[], .err .typeError, 0⟩ ∧
+    (hop ≠ .other → blocksCall dflt (.int s) hop padval false xs e = ⟨[], .err .typeError, 0⟩) := by
+  have h1 : ¬ ((s : Int) < 0) := by omega
+  have h2 : ¬ (maxSsize < (s : Int)) := by omega
+  have hsz : initSize (.int (s : Int)) = .ok s := by simp [initSize, h1, h2]
+  refine ⟨by simp [blocksCall, hsz, initHop], fun hne => ?_⟩
+  cases hop <;> simp [blocksCall, hsz, initHop] at hne ⊢
+
+/-- the run of the base model with the flag "the index is a Python int all along" is its trace -/
+theorem runOfBase_int (s h : Nat) (pad : α) (xs : List α) (e : Ending) :
+    runOfBase s h true pad xs e =
+      ⟨(blocksTrace s h pad xs e).events, (if (blocksTrace s h pad xs e).raised then .srcFail else .stop), xs.length⟩ := by
+  cases e with
+  | fail => simp [runOfBase, blocksTrace]
+  | stop =>
+    unfold runOfBase blocksTrace btail
+    by_cases hc : (bloopEv s h (⟨[], 0⟩ : BState α) 0 xs).2.idx > max ((s : Int) - h) 0
+    · simp [hc]
+    · simp [hc]
+
+/-- **C08.9c (accepted int spellings: int, bool, int subclass)**: for `size`, `hop` ints ≥ 0 the call
+IS the generator of the property: its events are the trace of C08.5, it ends cleanly (or with the
+source's exception), having pulled every item. -/
+theorem call_int (dflt : α) (s h : Nat) (hs : (s : Int) ≤ maxSsize) (padval : Option α) (xs : List α) (e : Ending) :
+    blocksCall dflt (.int s) (.int h) padval true xs e =
+      ⟨(blocksTrace s h (padval.getD dflt) xs e).events,
+        (if (blocksTrace s h (padval.getD dflt) xs e).raised then .srcFail else .stop), xs.length⟩ := by
+  have h1 : ¬ ((s : Int) < 0) := by omega
+  have h2 : ¬ (maxSsize < (s : Int)) := by omega
+  rw [← runOfBase_int]
+  simp [blocksCall, initSize, initHop, h1, h2, grun_int]
+
+/-- `Trace.raised`: the exception comes out iff the source failed, and then after exactly the complete
+blocks of the delivered items (no padded block) -/
+theorem trace_raised (size hop : Nat) (hs : 0 < size) (hh : 0 < hop) (pad : α) (xs : List α) (e : Ending) :
+    ((blocksTrace size hop pad xs e).raised = true ↔ e = .fail) ∧
+    ((blocksTrace size hop pad xs e).raised = true →
+      (blocksTrace size hop pad xs e).events.map Prod.snd = fullBlocks size hop xs) := by
+  cases e with
+  | stop => simp [blocksTrace]
+  | fail =>
+    refine ⟨by simp [blocksTrace], fun _ => ?_⟩
+    rw [trace_fail size hop hs hh pad xs]
+    simp [fullBlocks, List.map_map, Function.comp_def]
+
+/-- the tail of the base model after the whole input, in closed form -/
+theorem btail_closed (size hop : Nat) (hs : 0 < size) (hh : 0 < hop) (pad : α) (xs : List α) :
+    btail size hop pad (bloopEv size hop (⟨[], 0⟩ : BState α) 0 xs).2 = tailBlock size hop pad xs := by
+  have h1 := blocks_eq_closed size hop hs hh pad xs
+  have h2 := blocks_prefix size hop hs hh xs
+  unfold blocks at h1
+  simp only at h1
+  rw [h2] at h1
+  rw [(bloopEv_snd size hop xs ⟨[], 0⟩ 0).2]
+  exact List.append_cancel_left (h1.trans (rfl : blocksClosed size hop pad xs =
+    fullBlocks size hop xs ++ tailBlock size hop pad xs))
+
+/-- **C08.9d (float / Fraction `hop` with a whole value ≥ 1, e.g. `hop=2.0`)**: the same complete blocks at
+the same moments; where the int hop would give a padded final block, the float hop gives it only when no
+complete block came before (the index is still an int), otherwise `xrange` refuses the float index:
+TypeError AFTER the complete blocks, when the source has ended. -/
+theorem call_whole_float_hop (dflt : α) (s h : Nat) (hs0 : 0 < s) (hs : (s : Int) ≤ maxSsize) (hh : 0 < h)
+    (padval : Option α) (xs : List α) :
+    (∀ e, blocksCall dflt (.int s) (.flt (h : Nat)) padval true xs e =
+          blocksCall dflt (.int s) (.frac (h : Nat)) padval true xs e) ∧
+    blocksCall dflt (.int s) (.flt (h : Nat)) padval true xs .fail = ⟨fullEvents s h xs, .srcFail, xs.length⟩ ∧
+    blocksCall dflt (.int s) (.flt (h : Nat)) padval true xs .stop =
+      (match tailBlock s h (padval.getD dflt) xs with
+       | [] => ⟨fullEvents s h xs, .stop, xs.length⟩
+       | b :: _ =>
+         if nFull s h xs.length = 0 then ⟨[(xs.length, b)], .stop, xs.length⟩
+         else ⟨fullEvents s h xs, .err .typeError, xs.length⟩) := by
+  have h1 : ¬ ((s : Int) < 0) := by omega
+  have h2 : ¬ (maxSsize < (s : Int)) := by omega
+  have c1 : ((s : Nat) : Rat) - 1 = (((s : Int) - 1 : Int) : Rat) := by
+    simp [Rat.intCast_sub, Rat.intCast_natCast]
+  have c2 : ((s : Nat) : Rat) - ((h : Nat) : Rat) = (((s : Int) - (h : Int) : Int) : Rat) := by
+    simp [Rat.intCast_sub, Rat.intCast_natCast]
+  have hrun : ∀ e, blocksCall dflt (.int s) (.flt (h : Nat)) padval true xs e =
+      runOfBase s h false (padval.getD dflt) xs e := by
+    intro e
+    simp only [blocksCall, initSize, initHop, h1, h2, if_false, Int.toNat_natCast, Bool.not_true]
+    rw [c1, c2, grun_rat, grun_int]
+    simp
+  have hev : (bloopEv s h (⟨[], 0⟩ : BState α) 0 xs).1 = fullEvents s h xs := events_closed s h hs0 hh xs
+  refine ⟨fun e => rfl, ?_, ?_⟩
+  · rw [hrun]; simp only [runOfBase, hev]
+  · rw [hrun]
+    simp only [runOfBase, hev, btail_closed s h hs0 hh]
+    cases tailBlock s h (padval.getD dflt) xs with
+    | nil => rfl
+    | cons b bs =>
+      simp only [Bool.or_false]
+      by_cases hn : nFull s h xs.length = 0
+      · simp [fullEvents, hn]
+      · have : (fullEvents s h xs).isEmpty = false := by
+          simp [fullEvents, hn]
+        simp [this, hn]
+
+/-- **C08.9e (`size = 0`)**: no block in the loop; one EMPTY block when the source ends, iff more than
+`max(-hop, 0)` items came. -/
+theorem call_size_zero (dflt : α) (h : Int) (padval : Option α) (xs : List α) :
+    blocksCall dflt (.int 0) (.int h) padval true xs .fail = ⟨[], .srcFail, xs.length⟩ ∧
+    blocksCall dflt (.int 0) (.int h) padval true xs .stop =
+      (if -h < (xs.length : Int) ∧ 0 < xs.length then ⟨[(xs.length, [])], .stop, xs.length⟩
+       else ⟨[], .stop, xs.length⟩) := by
+  have hq := gloopEv_quiet 0 (-1) (-h) true xs (⟨[], 0, true⟩ : GState Int α) 0 (by simp) (by left; simp)
+  have hp : pushAll 0 ([] : List α) xs = [] := by
+    rw [pushAll_eq 0 xs [] (by simp)]; simp [lastSz]
+  dsimp only at hq
+  rw [hp] at hq
+  have hcall : ∀ e, blocksCall dflt (.int 0) (.int h) padval true xs e =
+      grun 0 (-1) (-h) true Int.toNat (padval.getD dflt) xs e := by
+    intro e; simp [blocksCall, initSize, initHop, maxSsize]
+  constructor
+  · rw [hcall]; simp only [grun, hq]
+  · rw [hcall]
+    simp only [grun, hq, gtail, Int.zero_add]
+    by_cases hc : -h < (xs.length : Int) ∧ 0 < xs.length
+    · have hc' : -h < (xs.length : Int) ∧ (0 : Int) < (xs.length : Int) := ⟨hc.1, by omega⟩
+      simp [hc, hc', padTo]
+    · have hc' : ¬ (-h < (xs.length : Int) ∧ (0 : Int) < (xs.length : Int)) := fun hx => hc ⟨hx.1, by omega⟩
+      simp [hc, hc']
+
+/-- **C08.9f (`hop ≤ 0`)**: the loop hands out block 0 (the first `size` items `a ++ [x]`) and then NOTHING,
+however many items follow (an endless source is read for ever: the `.fail` line holds for every `rest`);
+when the source ends, the last `size` items come out once more iff more than `size` items came.  With the
+same hop spelled as a float, that last block is refused (TypeError). -/
+theorem call_hop_nonpos (dflt : α) (a : List α) (x : α) (rest : List α)
+    (hs : ((a.length + 1 : Nat) : Int) ≤ maxSsize) (h : Int) (hh : h ≤ 0) (padval : Option α) :
+    blocksCall dflt (.int (a.length + 1 : Nat)) (.int h) padval true (a ++ x :: rest) .fail =
+      ⟨[(a.length + 1, a ++ [x])], .srcFail, (a ++ x :: rest).length⟩ ∧
+    blocksCall dflt (.int (a.length + 1 : Nat)) (.int h) padval true (a ++ x :: rest) .stop =
+      (if rest = [] then ⟨[(a.length + 1, a ++ [x])], .stop, (a ++ x :: rest).length⟩
+       else ⟨[(a.length + 1, a ++ [x]), ((a ++ x :: rest).length, lastSz (a.length + 1) (a ++ x :: rest))],
+              .stop, (a ++ x :: rest).length⟩) ∧
+    blocksCall dflt (.int (a.length + 1 : Nat)) (.flt (h : Int)) padval true (a ++ x :: rest) .stop =
+      (if rest = [] then ⟨[(a.length + 1, a ++ [x])], .stop, (a ++ x :: rest).length⟩
+       else ⟨[(a.length + 1, a ++ [x])], .err .typeError, (a ++ x :: rest).length⟩) := by
+  have h1 : ¬ (((a.length + 1 : Nat) : Int) < 0) := by omega
+  have h2 : ¬ (maxSsize < ((a.length + 1 : Nat) : Int)) := by omega
+  have hsz : initSize (.int ((a.length + 1 : Nat) : Int)) = .ok (a.length + 1) := by
+    simp only [initSize, if_neg h1, if_neg h2, Int.toNat_natCast]
+  have c1' : ∀ n : Nat, (n : Rat) - 1 = ((((n : Nat) : Int) - 1 : Int) : Rat) := by
+    intro n; simp [Rat.intCast_sub, Rat.intCast_natCast]
+  have c2' : ∀ n : Nat, (n : Rat) - ((h : Int) : Rat) = ((((n : Nat) : Int) - h : Int) : Rat) := by
+    intro n; simp [Rat.intCast_sub, Rat.intCast_natCast]
+  have c1 := c1' (a.length + 1)
+  have c2 := c2' (a.length + 1)
+  have hcond : ∀ n : Nat, (((a.length + 1 : Nat) : Int) - h < ((a.length + 1 : Nat) : Int) - h + (n : Int) ∧
+      (0 : Int) < ((a.length + 1 : Nat) : Int) - h + (n : Int)) ↔ n ≠ 0 := by
+    intro n; omega
+  have hpad : ∀ n : Nat, a.length + 1 - (((a.length + 1 : Nat) : Int) - h + (n : Int)).toNat = 0 := by
+    intro n; omega
+  refine ⟨?_, ?_, ?_⟩
+  · simp only [blocksCall, hsz, initHop, Bool.not_true, if_false, grun, gloopEv_nonpos a x rest h hh]
+    simp
+  · simp only [blocksCall, hsz, initHop, Bool.not_true, if_false, grun, gloopEv_nonpos a x rest h hh, gtail]
+    by_cases hr : rest = []
+    · subst hr; simp
+    · have hn : rest.length ≠ 0 := by simpa using hr
+      simp only [if_pos ((hcond rest.length).mpr hn), hpad, padTo, if_neg hr]
+      simp
+  · simp only [blocksCall, hsz, initHop, Bool.not_true, if_false]
+    rw [c1, c2, grun_rat]
+    simp only [grun, gloopEv_nonpos a x rest h hh, gtail]
+    by_cases hr : rest = []
+    · subst hr; simp
+    · have hn : rest.length ≠ 0 := by simpa using hr
+      simp only [if_pos ((hcond rest.length).mpr hn), if_neg hr]
+      simp
+
+/-- `hop ≤ 0` and fewer than `size` items: no block at all (no padded block either) -/
+theorem call_hop_nonpos_short (dflt : α) (s : Nat) (hs : (s : Int) ≤ maxSsize) (h : Int) (hh : h ≤ 0)
+    (padval : Option α) (xs : List α) (hx : xs.length < s) :
+    blocksCall dflt (.int s) (.int h) padval true xs .stop = ⟨[], .stop, xs.length⟩ := by
+  have h1 : ¬ ((s : Int) < 0) := by omega
+  have h2 : ¬ (maxSsize < (s : Int)) := by omega
+  have hsz : initSize (.int (s : Int)) = .ok s := by simp only [initSize, if_neg h1, if_neg h2, Int.toNat_natCast]
+  have hq := gloopEv_quiet s ((s : Int) - 1) ((s : Int) - h) true xs (⟨[], 0, true⟩ : GState Int α) 0 (by simp)
+    (by right; show (0 : Int) + xs.length ≤ (s : Int) - 1; omega)
+  have hc : ¬ ((s : Int) - h < (0 : Int) + xs.length ∧ (0 : Int) < (0 : Int) + xs.length) := by omega
+  simp only [blocksCall, hsz, initHop, Bool.not_true, if_false, grun, hq, gtail, if_neg hc]
+  simp
+
+/-! ## A caller that changes the yielded deque in ANY way (length too), operations that fail -/
+
+/-- **C08.6b**: when `hop ≥ size` nothing the caller does to a yielded deque (append, pop, clear, …:
+any change that respects `maxlen`) shows in any later block, the padded final block included. -/
+theorem blocks_mut_any_hop_ge_size (size hop : Nat) (hs : 0 < size) (hge : size ≤ hop) (pad : α)
+    (edit : Nat → List α → List α) (hed : ∀ k l, l.length ≤ size → (edit k l).length ≤ size)
+    (xs : List α) :
+    blocksMut size hop pad edit xs = blocks size hop pad xs := by
+  have hh : 0 < hop := by omega
+  have := bloopMut_ge size hop hs hh hge pad edit hed xs ⟨[], 0⟩ 0 (binv_init size hs)
+  rw [blocks_eq_spec size hop hs hh]
+  simpa [blocksMut, virt, lastN] using this
+
+/-- the deque operations of the tie (`DqOp`: item assignment, rotate, reverse, append, appendleft, pop,
+popleft, clear, extend, del, insert; a FAILED one — IndexError — leaves the deque as it was) respect
+`maxlen`, so C08.6b applies to every history of them -/
+theorem blocks_mut_ops_hop_ge_size (size hop : Nat) (hs : 0 < size) (hge : size ≤ hop) (pad : α)
+    (ops : Nat → List (DqOp α)) (xs : List α) :
+    blocksMut size hop pad (fun k => applyOps size (ops k)) xs = blocks size hop pad xs :=
+  blocks_mut_any_hop_ge_size size hop hs hge pad _ (fun k l hl => applyOps_length_le size (ops k) l hl) xs
+
+/-- a failed operation leaves no trace: the history goes on as if it had not been attempted -/
+theorem failed_op_no_trace (size : Nat) (o : DqOp α) (os : List (DqOp α)) (l : List α)
+    (h : o.apply size l = none) :
+    applyOps size (o :: os) l = applyOps size os l ∧
+    opsFailed size (o :: os) l = true :: opsFailed size os l := by
+  simp [applyOps, opsFailed, h]
+
+/-- one list of failed operations per block handed out by the loop -/
+theorem mut_fails_length (size hop : Nat) (ops : Nat → List (DqOp α)) (xs : List α) :
+    (bloopMutFails size hop ops (⟨[], 0⟩ : BState α) 0 xs).length =
+      (bloopMut size hop (fun k => applyOps size (ops k)) (⟨[], 0⟩ : BState α) 0 xs).1.length :=
+  bloopMutFails_length size hop ops xs ⟨[], 0⟩ 0
+
+/-- the length-preserving edits of C08.6 as deque operations: the same blocks (operations that do not
+fail), so `blocks_mut_eq_spec` / `mut_next_block` speak about these histories -/
+theorem blocks_mut_edits (size hop : Nat) (hs : 0 < size) (hh : 0 < hop) (pad : α)
+    (es : Nat → List (Edit α)) (xs : List α) :
+    blocksMut size hop pad (fun k => applyEdits (es k)) xs =
+      mutSpec size hop pad (fun k => editsLP (es k)) 0 xs :=
+  blocks_mut_eq_spec size hop hs hh pad (fun k => editsLP (es k)) xs
+
+
+/-- the fields of a run with accepted int spellings: every item was pulled, the run ends cleanly iff the
+source did, and the blocks of a finished source are those of C08.1 -/
+theorem call_int_fields (dflt : α) (s h : Nat) (hs : (s : Int) ≤ maxSsize) (padval : Option α) (xs : List α)
+    (e : Ending) :
+    (blocksCall dflt (.int s) (.int h) padval true xs e).pulled = xs.length ∧
+    ((blocksCall dflt (.int s) (.int h) padval true xs e).ending = .stop ↔ e = .stop) ∧
+    (blocksCall dflt (.int s) (.int h) padval true xs .stop).events.map Prod.snd =
+      blocks s h (padval.getD dflt) xs := by
+  refine ⟨by rw [call_int dflt s h hs], ?_, ?_⟩
+  · rw [call_int dflt s h hs]
+    cases e <;> simp [blocksTrace]
+  · rw [call_int dflt s h hs, trace_stop_blocks]
+
+/-- `zero_pad` as written: positional = keyword form, omitted parameters = their defaults -/
+theorem zero_pad_apply_forms (asNum : α → Num) (asIter : α → Bool) (dflt seq l r z : α) (xs : List α) (e : Ending) :
+    zeroPadApply asNum asIter dflt [seq, l, r, z] [] xs e =
+      some (zeroPadCall dflt (some (asNum l)) (some (asNum r)) (some z) (asIter seq) xs e) ∧
+    zeroPadApply asNum asIter dflt [] [("zero", z), ("right", r), ("seq", seq), ("left", l)] xs e =
+      some (zeroPadCall dflt (some (asNum l)) (some (asNum r)) (some z) (asIter seq) xs e) ∧
+    zeroPadApply asNum asIter dflt [seq] [("right", r)] xs e =
+      some (zeroPadCall dflt none (some (asNum r)) none (asIter seq) xs e) ∧
+    zeroPadApply asNum asIter dflt [seq, l] [("left", l)] xs e = none ∧
+    ALV.C08.bind zeroPadParams 1 [seq, l, r, z, z] [] = none := ⟨rfl, rfl, rfl, rfl, rfl⟩
+
+/-! ## The call of `zero_pad` -/
+
+/-- **C08.2c (defaults)**: `zero_pad(seq)` is `zero_pad(seq, 0, 0, 0.)` -/
+theorem zero_pad_call_defaults (dflt : α) (it : Bool) (xs : List α) (e : Ending) :
+    zeroPadCall dflt none none none it xs e =
+      zeroPadCall dflt (some (.int 0)) (some (.int 0)) (some dflt) it xs e := rfl
+
+/-- **C08.2d (int spellings ≥ 0)**: the call is the generator of C08.2b -/
+theorem zero_pad_call_int (dflt : α) (l r : Nat) (z : α) (xs : List α) (e : Ending) :
+    zeroPadCall dflt (some (.int l)) (some (.int r)) (some z) true xs e =
+      ⟨(zeroPadTrace l r z xs e).1, if (zeroPadTrace l r z xs e).2 then .srcFail else .stop⟩ := by
+  cases e <;> simp [zeroPadCall, zeroPadTrace, rangeCount]
+
+/-- negative counts pad nothing (`xrange` of a negative number is empty) -/
+theorem zero_pad_call_negative (dflt : α) (l r : Int) (hl : l ≤ 0) (hr : r ≤ 0) (z : Option α) (it : Bool)
+    (xs : List α) (e : Ending) :
+    zeroPadCall dflt (some (.int l)) (some (.int r)) z it xs e =
+      zeroPadCall dflt (some (.int 0)) (some (.int 0)) z it xs e := by
+  have h1 : l.toNat = 0 := by omega
+  have h2 : r.toNat = 0 := by omega
+  simp [zeroPadCall, rangeCount, h1, h2]
+
+/-- **C08.2e (refused spellings)**: a `left` that is not an int (float, Fraction, None, other) is refused
+before anything comes out or is pulled; a `right` that is not an int is refused only after the left pads
+and EVERY item have come out (the output of a source that fails after its items). -/
+theorem zero_pad_call_refused (dflt : α) (l : Nat) (left right : Num) (hl : ∀ i, left ≠ .int i)
+    (hr : ∀ i, right ≠ .int i) (r : Option Num) (z : α) (it : Bool) (xs : List α) (e : Ending) :
+    zeroPadCall dflt (some left) r (some z) it xs e = ⟨[], .err .typeError⟩ ∧
+    zeroPadCall dflt (some (.int l)) (some right) (some z) true xs .stop =
+      ⟨(zeroPadTrace l 0 z xs .fail).1, .err .typeError⟩ := by
+  constructor
+  · cases left with
+    | int i => exact absurd rfl (hl i)
+    | _ => rfl
+  · cases right with
+    | int i => exact absurd rfl (hr i)
+    | _ => simp [zeroPadCall, zeroPadTrace, rangeCount]
+
+
+/-- **C08.2f**: the call of `zero_pad` for EVERY spelling of `left` / `right`, every subset of defaults,
+iterable or not, source ending or failing, is the table `zeroPadCallSpec` (items, read counts, ending). -/
+theorem zero_pad_call_eq_spec (dflt : α) (left right : Option Num) (zero : Option α) (it : Bool)
+    (xs : List α) (e : Ending) :
+    (zeroPadCall dflt left right zero it xs e).out.map Prod.snd = (zeroPadCallSpec dflt left right zero it xs e).1 ∧
+    (zeroPadCall dflt left right zero it xs e).out.map Prod.fst = (zeroPadCallSpec dflt left right zero it xs e).2.1 ∧
+    (zeroPadCall dflt left right zero it xs e).ending = (zeroPadCallSpec dflt left right zero it xs e).2.2 := by
+  have hA : List.map (fun x : Nat × α => x.snd) ((List.range xs.length).zip xs) = xs := by
+    have := List.map_snd_zip (l₁ := List.range xs.length) (l₂ := xs) (by simp)
+    simpa using this
+  have hB : List.map (fun x : Nat × α => x.fst + 1) ((List.range xs.length).zip xs) =
+      List.map (fun x => x + 1) (List.range xs.length) := by
+    have := List.map_fst_zip (l₁ := List.range xs.length) (l₂ := xs) (by simp)
+    calc List.map (fun x : Nat × α => x.fst + 1) ((List.range xs.length).zip xs)
+        = List.map (fun x => x + 1) (List.map Prod.fst ((List.range xs.length).zip xs)) := by
+          rw [List.map_map]; rfl
+      _ = _ := by rw [this]
+  unfold zeroPadCall zeroPadCallSpec
+  cases hl : left.getD (.int 0) with
+  | int l =>
+    simp only [rangeCount]
+    cases it with
+    | false => simp
+    | true =>
+      cases e with
+      | fail => simp [hA, hB, Function.comp_def]
+      | stop =>
+        cases hr : right.getD (.int 0) <;> simp [hA, hB, Function.comp_def]
+  | _ => simp [rangeCount]
+
+-- PENDING (stated, run against the code on every check through the driver's "spec", not proved):
+
+/-- the whole table of `Spec/C08Call.lean` in one equation; proved class by class above
+(`call_size_refused`, `call_hop_seq_refused`, `call_int` + `trace_fail`/`trace_stop`, `call_whole_float_hop`,
+`call_size_zero`, `call_hop_nonpos`, `call_hop_nonpos_short`) except for the float / Fraction hops that are not
+whole numbers and the whole non-positive ones on short inputs -/
+def blocksCall_eq_spec_PENDING : Prop :=
+  ∀ (α : Type) (dflt : α) (size hop : Num) (padval : Option α) (it : Bool) (xs : List α) (e : Ending),
+    blocksCall dflt size hop padval it xs e = blocksCallSpec dflt size hop padval it xs e
+
+/-- `hop ≤ size`, a caller that changes the yielded deque in any way: every block is the last `size` of what
+the caller left followed by the next `hop` items (`mutSpecG`) -/
+def blocks_mut_any_eq_spec_PENDING : Prop :=
+  ∀ (α : Type) (size hop : Nat), 0 < size → 0 < hop → hop ≤ size →
+    ∀ (pad : α) (edit : Nat → List α → List α) (xs : List α),
+      blocksMut size hop pad edit xs = mutSpecG size hop pad edit xs
+
 /-- non-vacuity: hypotheses satisfiable, statement about a non-trivial input -/
 example : blocks 4 2 (0:Nat) [100,101,102,103,104] = [[100,101,102,103],[102,103,104,0]] := by decide
 example : blocks 2 3 (9:Nat) [0,1,2,3,4] = [[0,1],[3,4]] := by decide
@@ -235,6 +660,30 @@ example : blocksMut 4 2 (0:Nat) (fun k b => if k = 0 then b.set 3 7 else b) [100
     [[100,101,102,103],[102,7,104,105]] := by decide
 -- live source delivering the number of blocks handed out so far
 example : blocksLive 2 1 (9:Nat) (fun _ ph => ph) 4 = [[0,0],[0,1],[1,2]] := by decide
+
+-- the call layer: `blocks(seq, 3)` = `blocks(seq, 3, 3, 0.)`; hop=2.0 after a complete block refuses the padded one
+example : (blocksCall (99:Nat) (.int 3) .none none true [1,2,3,4] .stop).events = [(3, [1,2,3]), (4, [4,99,99])] := by decide
+example : (blocksCall (99:Nat) (.int (3:Nat)) (.flt (2:Nat)) none true [0,1,2,3,4,5,6,7] .stop).ending = .err .typeError ∧
+    (blocksCall (99:Nat) (.int (3:Nat)) (.flt (2:Nat)) none true [0,1,2,3,4,5,6,7] .stop).events =
+      [(3, [0,1,2]), (5, [2,3,4]), (7, [4,5,6])] := by
+  rw [(call_whole_float_hop (99:Nat) 3 2 (by decide) (by decide) (by decide) none [0,1,2,3,4,5,6,7]).2.2]
+  decide
+example : (blocksCall (99:Nat) (.int (3:Nat)) (.flt (2:Nat)) none true [0,1] .stop).events = [(2, [0,1,99])] := by
+  rw [(call_whole_float_hop (99:Nat) 3 2 (by decide) (by decide) (by decide) none [0,1]).2.2]
+  decide
+example : (blocksCall (99:Nat) (.int (-1)) (.int 1) none true [0,1] .stop).ending = .err .valueError := by decide
+example : ((3:Nat):Int) ≤ maxSsize ∧ (0:Nat) < 3 := by decide
+-- hop = 0: block 0, then the last `size` items when the source ends
+example : (blocksCall (99:Nat) (.int 2) (.int 0) none true [0,1,2,3,4,5,6] .stop).events = [(2, [0,1]), (7, [5,6])] := by decide
+-- size = 0: one empty block at the end
+example : (blocksCall (99:Nat) (.int 0) .none none true [0,1,2] .stop).events = [(3, [])] := by decide
+-- the caller clears block 0 (size 4, hop 2): the final block holds 2 items; with hop 4 nothing shows
+example : blocksMut 4 2 (0:Nat) (fun k => applyOps 4 (if k = 0 then [DqOp.clear] else [])) [0,1,2,3,4] = [[0,1,2,3],[4,0]] := by decide
+example : blocksMut 2 4 (0:Nat) (fun k => applyOps 2 (if k = 0 then [DqOp.clear, .pop] else [])) [0,1,2,3,4,5,6] =
+    [[0,1],[4,5]] ∧ opsFailed 2 [DqOp.clear, .pop] [0,(1:Nat)] = [false, true] := by decide
+example : (zeroPadCall (0:Nat) (some (.int 1)) (some (.flt 1)) none true [7,8] .stop).out = [(0,0),(1,7),(2,8)] ∧
+    (zeroPadCall (0:Nat) (some (.int 1)) (some (.flt 1)) none true [7,8] .stop).ending = .err .typeError := ⟨rfl, rfl⟩
+example : ∀ i : Int, Num.flt 1 ≠ Num.int i := by intro i h; cases h
 
 end ALV.Props.C08
 
